@@ -10,7 +10,7 @@
     on the current model.  All vocabulary of the statements is defined in Model/Headers.v and
     Model/HeadersSpec.v.  This file contains only statements, [exact], and [Print Assumptions]. *)
 From Coq Require Import String List NArith ZArith Bool.
-From Fabio Require Import Lib.Outcome Lib.Bytes Model.Headers Model.HeadersSpec Model.HeaderLines Proofs.Headers Proofs.HeaderLines.
+From Fabio Require Import Lib.Outcome Lib.Bytes Model.Headers Model.HeadersSpec Model.HeaderLines Model.HeadersRouted Proofs.Headers Proofs.HeaderLines Proofs.HeadersRouted.
 Import ListNotations.
 Local Open Scope N_scope.
 
@@ -477,3 +477,101 @@ Theorem C08_prefix_rule : forall cfg strip r h',
   hfind h' K_XFPREFIX = if sempty strip then hfind (r_hdr r) K_XFPREFIX else Some [strip].
 Proof. exact prefix_rule. Qed.
 Print Assumptions C08_prefix_rule.
+
+(* ---------------- through the routing stage (Model/HeadersRouted.v) ----------------
+   Between net/http and addHeaders run the real Table.Lookup (redirect routes whose self-redirect is
+   skipped fall through to the next host), AccessDeniedHTTP (reads the client's X-Forwarded-For) and
+   Authorized.  [serve_routed cfg d uuid r]: r = the request AS THE CLIENT SENT IT, d = the stage's
+   decision.  Whatever is decided, a contacted upstream is told the truth about r. *)
+
+(* nothing is forwarded unless the decision is a proxy target, and then it is [serve] of the
+   client's own request with that target *)
+Theorem C08_routed_forwards_only_proxy : forall cfg d uuid r x,
+  serve_routed cfg d uuid r = Ok x -> exists t, d = DProxy t /\ serve cfg t uuid r = Ok x.
+Proof. exact routed_forwards_only_proxy. Qed.
+Print Assumptions C08_routed_forwards_only_proxy.
+
+Theorem C08_routed_not_forwarded : forall cfg d uuid r,
+  is_proxy d = false -> serve_routed cfg d uuid r = Err E_NOT_FORWARDED.
+Proof. exact routed_not_forwarded. Qed.
+Print Assumptions C08_routed_not_forwarded.
+
+(* the peer is the last element of X-Forwarded-For for every decision and every client header map
+   -- in particular when the client's X-Forwarded-For names only the peer itself and the route
+   carries access rules that read (and admit) it *)
+Theorem C08_routed_xff_last_is_peer : forall cfg d uuid r peer up sts,
+  serve_routed cfg d uuid r = Ok (up, sts) -> r_peer r = Some peer -> wf_hdr (r_hdr r) = true ->
+  off K_XFF (c_tlsheader cfg) ->
+  off K_UPGRADE (c_clientip cfg) -> off K_UPGRADE (c_tlsheader cfg) -> off K_UPGRADE (c_reqid cfg) ->
+  cl_xff up peer = true.
+Proof. exact routed_xff_last_is_peer. Qed.
+Print Assumptions C08_routed_xff_last_is_peer.
+
+Theorem C08_routed_all_clauses_on_domain : forall cfg d uuid r peer up sts,
+  cfg_sane cfg = true -> wf_hdr (r_hdr r) = true -> no_region (r_hdr r) = true ->
+  serve_routed cfg d uuid r = Ok (up, sts) -> r_peer r = Some peer ->
+  all_hold (clauses cfg (r_hdr r) peer (r_host r) (local_port (r_host r) (is_tls r)) (is_tls r) true up) = true.
+Proof. exact routed_clauses_on_domain. Qed.
+Print Assumptions C08_routed_all_clauses_on_domain.
+
+(* X-Forwarded-Host / -Port describe the Host the CLIENT wrote (default port included when it
+   spelled it out), whichever hosts the table tried and skipped before it picked the target *)
+Theorem C08_routed_host_port_truthful : forall cfg d uuid r peer up sts,
+  cfg_sane cfg = true -> wf_hdr (r_hdr r) = true ->
+  serve_routed cfg d uuid r = Ok (up, sts) -> r_peer r = Some peer ->
+  (hget (r_hdr r) K_XFH = [] -> r_host r <> [] -> hfind up K_XFH = Some [r_host r]) /\
+  (hget (r_hdr r) K_XFPORT = [] -> hfind up K_XFPORT = Some [local_port (r_host r) (is_tls r)]).
+Proof. exact routed_host_port_truthful. Qed.
+Print Assumptions C08_routed_host_port_truthful.
+
+Theorem C08_routed_sts_clause : forall cfg d uuid r up sts,
+  serve_routed cfg d uuid r = Ok (up, sts) ->
+  cl_sts cfg (is_tls r) (match sts with Some v => [v] | None => [] end) = true.
+Proof. exact routed_sts_clause. Qed.
+Print Assumptions C08_routed_sts_clause.
+
+(* which route was picked, its host= option and its URL do not change what the upstream is told *)
+Theorem C08_routed_route_irrelevant : forall cfg t1 t2 uuid r,
+  t_strip t1 = t_strip t2 ->
+  serve_routed cfg (DProxy t1) uuid r = serve_routed cfg (DProxy t2) uuid r.
+Proof. exact routed_route_irrelevant. Qed.
+Print Assumptions C08_routed_route_irrelevant.
+
+Theorem C08_routed_lines_xff_last_is_peer : forall cfg d uuid r ls peer up sts,
+  serve_routed_lines cfg d uuid r ls = Ok (up, sts) -> r_peer r = Some peer ->
+  off K_XFF (c_tlsheader cfg) ->
+  off K_UPGRADE (c_clientip cfg) -> off K_UPGRADE (c_tlsheader cfg) -> off K_UPGRADE (c_reqid cfg) ->
+  cl_xff up peer = true.
+Proof. exact routed_lines_xff_last_is_peer. Qed.
+Print Assumptions C08_routed_lines_xff_last_is_peer.
+
+Theorem C08_routed_lines_all_clauses_on_domain : forall cfg d uuid r ls peer up sts,
+  cfg_sane cfg = true -> no_region (parse_lines ls) = true ->
+  serve_routed_lines cfg d uuid r ls = Ok (up, sts) -> r_peer r = Some peer ->
+  all_hold (clauses cfg (parse_lines ls) peer (r_host r) (local_port (r_host r) (is_tls r)) (is_tls r) true up) = true.
+Proof. exact routed_lines_clauses_on_domain. Qed.
+Print Assumptions C08_routed_lines_all_clauses_on_domain.
+
+(* non-vacuity on the request shapes themselves: X-Forwarded-For naming only the peer (one line on
+   the ReverseProxy path, two on the websocket path); TLS with Host: shop.example.com:443 *)
+Theorem C08_routed_nonvacuous :
+  let h1 := [(K_XFF, [ex_peer])] in
+  let h2 := [(K_XFF, [ex_peer; ex_peer]); (K_UPGRADE, [bs "websocket"]); (K_CONN, [bs "Upgrade"])] in
+  let r3 := {| r_peer := Some ex_peer; r_host := bs "shop.example.com:443"; r_tls := Some (772, 4865);
+               r_proto := bs "HTTP/1.1"; r_hdr := [(bs "Accept", [bs "*/*"])] |} in
+  let d := DProxy (ex_tgt (bs "backend.internal")) in
+  xff_only_peer h1 ex_peer = true /\ xff_only_peer h2 ex_peer = true /\
+  exists up1 s1 up2 s2 up3 s3,
+    serve_routed ex_cfg d [] (ex_req None h1) = Ok (up1, s1) /\
+    hfind up1 K_XFF = Some [bs "1.2.3.4, 1.2.3.4"] /\
+    all_hold (clauses ex_cfg h1 ex_peer (bs "example.com") (spec_port (bs "example.com") false) false true up1) = true /\
+    serve_routed ex_cfg d [] (ex_req None h2) = Ok (up2, s2) /\ takes_ws_path up2 = true /\
+    hfind up2 K_XFF = Some [bs "1.2.3.4, 1.2.3.4, 1.2.3.4"] /\ cl_xff up2 ex_peer = true /\
+    serve_routed ex_cfg d [] r3 = Ok (up3, s3) /\
+    hfind up3 K_XFH = Some [bs "shop.example.com:443"] /\ hfind up3 K_XFPORT = Some [bs "443"] /\
+    all_hold (clauses ex_cfg (r_hdr r3) ex_peer (r_host r3) (spec_port (r_host r3) true) true true up3) = true /\
+    upstream_host_routed ex_cfg d [] r3 = Ok (bs "backend.internal") /\
+    serve_routed ex_cfg DDenied [] r3 = Err E_NOT_FORWARDED /\
+    serve_routed ex_cfg DRedirect [] r3 = Err E_NOT_FORWARDED.
+Proof. exact routed_nonvacuous. Qed.
+Print Assumptions C08_routed_nonvacuous.
